@@ -39,6 +39,7 @@ Fmt1       == Ty("fmt1", <<>>)           \* a str literal with one {} / two {}
 Fmt2       == Ty("fmt2", <<>>)
 Lit0       == Ty("lit0", <<>>)           \* the literal 0 / 1 (constant tuple index)
 Lit1       == Ty("lit1", <<>>)
+Lit2       == Ty("lit2", <<>>)
 Fresh(t)   == Ty("fresh", <<t>>)         \* a list that is a fresh temporary (may be mutated)
 Strict(t)  == Ty("strict", <<t>>)        \* an expression whose OWN type is t (no subsumption): the operand of
                                          \* `== None`; comparing a non-optional with None is (rightly) reported
@@ -49,16 +50,20 @@ TIS == TupT(<<IntT, StrT>>)
 ElemTs == {IntT, StrT, BoolT, ListT(IntT), TSI, OptT(IntT)}
 ListTs == {ListT(e) : e \in ElemTs}
 DictTs == {DictT(StrT, IntT), DictT(IntT, StrT), DictT(StrT, ListT(IntT))}
-TupTs  == {TSI, TIS}
+\* arity 3, the first two components of one type and the third of another: the element type of such
+\* a tuple is a union whose first two alternatives coincide
+TIIS == TupT(<<IntT, IntT, StrT>>)
+TSSI == TupT(<<StrT, StrT, IntT>>)
+TupTs  == {TSI, TIS, TIIS, TSSI}
 OptTs  == {OptT(IntT), OptT(StrT), OptT(ListT(IntT))}
 U      == {IntT, StrT, BoolT, NoneT} \cup ListTs \cup DictTs \cup TupTs \cup OptTs
 InU(t) == t \in U
 
-Base(t) == CASE t.t \in {"nz", "idx", "lit0", "lit1"} -> IntT
+Base(t) == CASE t.t \in {"nz", "idx", "lit0", "lit1", "lit2"} -> IntT
              [] t.t \in {"numstr", "fmt1", "fmt2"} -> StrT
              [] t.t \in {"fresh", "strict"} -> t.a[1]
              [] OTHER -> t
-IsLeafClass(t) == t.t \in {"nz", "idx", "numstr", "fmt1", "fmt2", "lit0", "lit1"}
+IsLeafClass(t) == t.t \in {"nz", "idx", "numstr", "fmt1", "fmt2", "lit0", "lit1", "lit2"}
 
 \* subsumption: the only non-trivial cases are into None | e
 Sub(act, req) == \/ act = req
@@ -68,7 +73,8 @@ RECURSIVE Code(_)
 Code(t) == CASE t.t = "int" -> "i" [] t.t = "str" -> "s" [] t.t = "bool" -> "b" [] t.t = "none" -> "n"
              [] t.t = "list" -> "l" \o Code(t.a[1])
              [] t.t = "dict" -> "d" \o Code(t.a[1]) \o Code(t.a[2])
-             [] t.t = "tuple" -> "t" \o Code(t.a[1]) \o Code(t.a[2])
+             [] t.t = "tuple" -> (IF Len(t.a) = 2 THEN "t" \o Code(t.a[1]) \o Code(t.a[2])
+                                  ELSE "T" \o Code(t.a[1]) \o Code(t.a[2]) \o Code(t.a[3]))
              [] t.t = "opt" -> "o" \o Code(t.a[1])
              [] OTHER -> "x"
 
@@ -140,6 +146,7 @@ Leaves(t) ==
       [] t = Idx    -> <<IntLit(0), PVar(IntT, 1), IntLit(-1)>>
       [] t = Lit0   -> <<IntLit(0)>>
       [] t = Lit1   -> <<IntLit(1)>>
+      [] t = Lit2   -> <<IntLit(2)>>
       [] t = StrT   -> <<PVar(StrT, 1), PVar(StrT, 2), StrLit("a b")>>
       [] t = NumStr -> <<StrLit("12")>>
       [] t = Fmt1   -> <<StrLit("<{}>")>>
@@ -263,6 +270,7 @@ SigsDictTup ==
     \cup {Sg("tuple", "", t.a, t, "tuplit", FALSE) : t \in TupTs}
     \cup {Sg("index", "", <<t, Lit0>>, t.a[1], "index:tuple", FALSE) : t \in TupTs}
     \cup {Sg("index", "", <<t, Lit1>>, t.a[2], "index:tuple", FALSE) : t \in TupTs}
+    \cup {Sg("index", "", <<t, Lit2>>, t.a[3], "index:tuple", FALSE) : t \in {x \in TupTs : Len(x.a) >= 3}}
 
 (* Helper defs present in every module (the "calls of annotated / unannotated defs" part).
    ann: which parameters / result carry an annotation in the source. *)
@@ -289,7 +297,7 @@ Sigs == SigsArith \cup SigsCmp \cup SigsLogic \cup SigsBuiltin \cup SigsStr \cup
 SigSeq == SetToSeq(Sigs)
 Rules == {s.r : s \in Sigs}
 
-ArgTs == U \cup {NZ, Idx, NumStr, Fmt1, Fmt2, Lit0, Lit1, RangeT} \cup {Fresh(l) : l \in ListTs}
+ArgTs == U \cup {NZ, Idx, NumStr, Fmt1, Fmt2, Lit0, Lit1, Lit2, RangeT} \cup {Fresh(l) : l \in ListTs}
          \cup {Strict(o) : o \in OptTs}
 \* producers of a (base) type; of a fresh list
 Producers == [t \in ArgTs |->
